@@ -118,6 +118,31 @@ def edits(rng, prog, n=1):
     return p, log
 
 
+def closure_all(prog, name):
+    """every definition reachable from `name` through any reference (visible or hidden), itself included"""
+    seen, todo = set(), [name]
+    while todo:
+        t = todo.pop()
+        if t in seen or t not in prog["defs"]:
+            continue
+        seen.add(t)
+        d = prog["defs"][t]
+        if d["kind"] != "var":
+            todo += [r[0] for r in d["refs"]]
+    return seen
+
+
+def discipline(prev, cur):
+    """a disciplined user changes the version string of an explicitly versioned function whenever the function
+    or anything beneath it changed (that is what an explicit version asserts). Mutates and returns `cur`."""
+    changed = {n for n in cur["defs"] if prev["defs"].get(n) != cur["defs"][n]}
+    for n, d in cur["defs"].items():
+        if d["kind"] == "memento" and d.get("explicit") and prev["defs"].get(n, {}).get("explicit") == d["explicit"]:
+            if closure_all(cur, n) & changed or closure_all(prev, n) & changed:
+                d["explicit"] = d["explicit"] + "y"
+    return cur
+
+
 # ------------------------------------------------------------------------------------------------
 # rendering
 # ------------------------------------------------------------------------------------------------
